@@ -19,7 +19,7 @@ NoCtx == <<"", "">>
 
 RECURSIVE IsSigLike(_, _, _)     \* the term denotes a bit sequence (possibly ill-indexed)
 IsSigLike(D, m, t) ==
-  CASE t.k \in {"sig", "slice", "cat"} -> TRUE
+  CASE t.k \in {"sig", "slice", "cat", "fsig"} -> TRUE
     [] t.k = "pref" -> HasInst(m, t.inst) /\ HasFormal(D, InstOf(m, t.inst).of, t.port)
                        /\ Formal(D, InstOf(m, t.inst).of, t.port).bund = ""
     [] t.k = "bref" -> HasBund(m, t.root) /\ HasLeaf(D, BundOf(m, t.root), t.path)
@@ -37,6 +37,7 @@ IdxFault(n, idx) ==
 
 TermFaults(D, m, t) ==
   CASE t.k = "sig"   -> IF HasSig(m, t.n) THEN {} ELSE {"no_such_signal"}
+    [] t.k = "fsig"  -> {"foreign_or_orphan_signal"}      \* a signal owned by another module, or by none
     [] t.k = "slice" -> LET f == TermFaults(D, m, t.of) IN
                         IF f # {} THEN f
                         ELSE IF ~IsSigLike(D, m, t.of) THEN {"slice_of_bundle"}
@@ -99,8 +100,9 @@ ConnFaults(D, m, inst, c) ==
        THEN (IF BLeaves(D, m, c.t) = {<< <<"p">>, f.w >>, << <<"n">>, f.w >>} THEN {} ELSE {"pair_bundle_mismatch"})
        ELSE {"bundle_to_signal_port"}
 
-InstFaults(D, m, inst) ==
-  LET given == {inst.conns[k].p : k \in 1..Len(inst.conns)}
+(* a port without an explicit connection is still connected if a live connection references it (inst.port used as a term) *)
+InstFaults(D, m, inst, refs) ==
+  LET given == {inst.conns[k].p : k \in 1..Len(inst.conns)} \cup {r[2] : r \in {x \in refs : x[1] = inst.n}}
       want  == {f.n : f \in Range(Formals(D, inst.of))}
   IN (IF want \ given # {} THEN {"missing_connection"} ELSE {})
      \cup (IF Cardinality(given) # Len(inst.conns) THEN {"duplicate_connection"} ELSE {})
@@ -122,7 +124,7 @@ ModFaults(D, mn) ==
                   IF k <= Len(m.sigs) THEN m.sigs[k].n
                   ELSE IF k <= Len(m.sigs) + Len(m.bundles) THEN m.bundles[k - Len(m.sigs)].n
                   ELSE m.insts[k - Len(m.sigs) - Len(m.bundles)].n]
-  IN UNION {InstFaults(D, m, i) : i \in Range(m.insts)}
+  IN UNION {InstFaults(D, m, i, refs) : i \in Range(m.insts)}
      \cup (IF refs \cap ncports # {} THEN {"noconn_port_is_referenced"} ELSE {})
      \cup (IF Cardinality(Range(names)) # Len(names) THEN {"duplicate_name"} ELSE {})
 
@@ -136,10 +138,20 @@ Cyclic(D) == \E mn \in Reach(D, D.top, NMods(D)) :
 
 FaultClauses(D) ==
   IF Cyclic(D) THEN {"circular_instantiation"}
-  ELSE UNION {ModFaults(D, mn) : mn \in Reach(D, D.top, NMods(D))}
+  ELSE LET R == Reach(D, D.top, NMods(D)) IN
+       UNION {ModFaults(D, mn) : mn \in R}
+       \cup (IF \E mn \in R : D.mods[mn].name = "" THEN {"unnamed_module"} ELSE {})
+       \cup (IF \E m1, m2 \in R : m1 # m2 /\ D.mods[m1].name = D.mods[m2].name THEN {"module_name_clash"} ELSE {})
 
 AnyLenient(D) == \E mn \in Reach(D, D.top, NMods(D)) : \E i \in Range(D.mods[mn].insts) :
                    \E k \in 1..Len(i.conns) : TermFaults(D, D.mods[mn], i.conns[k].t) = {} /\ Lenient(D, D.mods[mn], i.conns[k].t)
 
-Status(D) == IF FaultClauses(D) # {} THEN "fault" ELSE IF AnyLenient(D) THEN "lenient" ELSE "valid"
+(* rules whose violation C02 does not list among the faults that must be rejected: nothing is demanded of such designs *)
+Unlisted == {"noconn_in_concat", "noconn_in_anon_bundle", "noconn_on_array_or_pair", "slice_of_bundle", "bundle_in_concat",
+             "duplicate_connection", "empty_array", "duplicate_name"}
+
+Status(D) == LET f == FaultClauses(D) IN
+             IF f \ Unlisted # {} THEN "fault"
+             ELSE IF f # {} THEN "unspecified"
+             ELSE IF AnyLenient(D) THEN "lenient" ELSE "valid"
 =============================================================================
